@@ -39,7 +39,7 @@ class Prop(BaseProp):
     def build(self, idx, rng):
         nrand = 5000 if self.tier == "quick" else 60000
         if idx < nrand:
-            b = Builder(rng, p_doc=0.5, max_depth=3, p_clone=0.08, clone_toggle_doc=True, helpers_in_tests=0.2, p_doc_impl=0.12, class_arg_variants=True)
+            b = Builder(rng, p_doc=0.5, max_depth=3, p_clone=0.08, clone_toggle_doc=True, helpers_in_tests=0.2, p_doc_impl=0.12, class_arg_variants=True, p_end_doc=0.08)
             mod = b.module()
             res_clones = b.clones
             return mod, b, "random"
